@@ -215,14 +215,17 @@ def unitOfBytesLE : List Nat → Nat
   | [] => 0
   | b :: bs => b + 256 * unitOfBytesLE bs
 
-def chunks (n : Nat) : (fuel : Nat) → List Nat → List (List Nat)
-  | 0, _ => []
-  | _, [] => []
-  | fuel + 1, l => l.take n :: chunks n fuel (l.drop n)
+def unitsOfBytes16 : List Nat → List Nat
+  | a :: b :: rest => (a + 256 * b) :: unitsOfBytes16 rest
+  | _ => []
 
-/-- reinterpret a byte buffer as native (LE host) units of width `w`; trailing partial unit dropped -/
+def unitsOfBytes32 : List Nat → List Nat
+  | a :: b :: c :: d :: rest => (a + 256 * b + 65536 * c + 16777216 * d) :: unitsOfBytes32 rest
+  | _ => []
+
+/-- reinterpret a byte buffer as native (LE host) units of width `w`; a trailing partial unit is dropped -/
 def unitsOfBytes (w : Nat) (bs : List Nat) : List Nat :=
-  ((chunks (w / 8) bs.length bs).filter (fun c => c.length = w / 8)).map unitOfBytesLE
+  if w = 16 then unitsOfBytes16 bs else if w = 32 then unitsOfBytes32 bs else bs
 
 /-- `Utf16Le/Utf16Be/Utf32Le/Utf32Be::Decode` on a little-endian host:
     the iterator adapter byte-swaps each unit when `be`. Input is given as native units
